@@ -160,6 +160,28 @@ impl Slot {
     }
 }
 
+// Verification hooks: compiled only with `--cfg gecs_verif`, never in normal builds.
+#[cfg(gecs_verif)]
+impl Slot {
+    /// Returns the raw `(index, version)` words of this slot.
+    pub(crate) fn __verif_raw(&self) -> (u32, u32) {
+        (self.index.0, self.version.get().get())
+    }
+
+    /// Overwrites this slot's generational version.
+    pub(crate) fn __verif_set_version(&mut self, version: std::num::NonZeroU32) {
+        self.version = SlotVersion::new(version);
+    }
+}
+
+#[cfg(gecs_verif)]
+impl SlotIndex {
+    /// Returns the raw word of this slot index.
+    pub(crate) fn __verif_raw(&self) -> u32 {
+        self.0
+    }
+}
+
 // Need to enforce this invariant here just in case.
 // If this isn't true, then we can't trust the FREE_LIST_END value.
 #[test]
